@@ -101,7 +101,7 @@ def showAcceptEv : Accept.Ev → String
 
 def parseAction : String → Option Shutdown.Action
   | "A" => some .arrive | "Q" => some .inflight | "R" => some .release | "C" => some .clientClose
-  | "S" => some .shutdown | "L" => some .late | "X" => some .ctxExpire
+  | "S" => some .shutdown | "L" => some .late | "X" => some .ctxExpire | "V" => some .startServe | "B" => some .arriveLate
   | _ => none
 
 def showSd : Shutdown.SdPc → String
@@ -109,7 +109,7 @@ def showSd : Shutdown.SdPc → String
   | .returnedNil => "nil" | .returnedCtx => "ctx"
 
 def showServe : Shutdown.ServePc → String
-  | .accepting => "serving" | .gotConn _ => "gotConn" | .returned e => if e then "err" else "nil"
+  | .notStarted => "notstarted" | .accepting => "serving" | .gotConn _ => "gotConn" | .returned e => if e then "err" else "nil"
 
 def observeSd (σ : Shutdown.State) : String :=
   s!"sd={showSd σ.sd} serve={showServe σ.serve} started={σ.started} open={σ.running + σ.connClosed} late={σ.lateClosed}"
@@ -119,7 +119,7 @@ def runSchedule (acts : List Shutdown.Action) : Option (List Shutdown.State) :=
     states.foldlM (fun acc σ =>
       match Shutdown.runLabels σ a.labels with
       | some σ' => some (acc ++ Shutdown.settle σ')
-      | none => none) []) [Shutdown.init]
+      | none => none) []) [if acts.contains .startServe then Shutdown.init else (Shutdown.applyLabel Shutdown.init .serveStart).getD Shutdown.init]
 
 def showSend : Client.SendResult → String
   | .payload p => "payload " ++ showFV (.dyn p)
